@@ -2,6 +2,7 @@ package os
 
 import (
 	"errors"
+	iofs "io/fs"
 	goos "os"
 	"time"
 
@@ -31,7 +32,7 @@ func c09Rooted() (*FS, func()) {
 	subs := verifChoice("subs", verifParam("SUBS")+1)
 	for i := 0; i < subs; i++ {
 		d := c09String(verifName("dir", i), verifParam("DIRLEN"))
-		verifAssume(hackpadfs.ValidPath(d))
+		verifAssume(iofs.ValidPath(d))
 		fsys, err = fsys.(*FS).Sub(d)
 		verifAssert(err == nil, "Sub with a valid directory failed")
 	}
@@ -97,9 +98,9 @@ func VerifC09Methods() {
 	if twoNames {
 		other = c09String("other", verifParam("NAMELEN"))
 	}
-	valid := hackpadfs.ValidPath(name)
+	valid := iofs.ValidPath(name)
 	if twoNames {
-		valid = hackpadfs.ValidPath(other) && valid
+		valid = iofs.ValidPath(other) && valid
 	}
 	if name == "." {
 		verifTag("name", "dot")
